@@ -136,7 +136,7 @@ def main():
         cases = gen_cases(ck)
     out = sg.run_cases(ck, cases, step, limit)
     n_viol = 0
-    for c, r, code in out:
+    for c, r, code in sorted(out, key=lambda x: (0 if x[2] & 2 else 1, x[0]["id"])):
         if not code or n_viol >= 5:
             continue
         n_viol += 1
